@@ -249,9 +249,19 @@ class LogCtx(BaseCtx):
             audit(self.fs, msgdir(self.cfg))
         logging_cb = ("on_update_error", "update_received", "send_open", "open_received", "route_refresh_received",
                       "notification_received", "on_connection_lost", "on_connection_failed")
+        k_rep = 0
         for e in w.log[pos:]:
             if e[2] == "h" and (e[3] in logging_cb or (e[3] == "keepalive_received" and self.cfg["write_keepalive"])):
                 self.reported += 1
+                k_rep += 1
+        # every reported event is written, flushed and fsynced before the callback returns - unless the process
+        # died or the storage refused during this very step
+        if k_rep > self.fs.fsyncs - fsyncs and not any(e[2] == "crash" for e in w.log[pos:]) \
+                and len(self.fs.io_errors) == self._io_before and not w.exited:
+            raise Violation("C20", "event", "reported-event-not-made-durable",
+                            "%d event(s) were reported to the handler in this step (%s) but only %d record(s) were written and "
+                            "synced, without a crash or storage error"
+                            % (k_rep, [e[3] for e in w.log[pos:] if e[2] == "h"][:4], self.fs.fsyncs - fsyncs))
         self.stats["records_acked"] += self.fs.fsyncs - fsyncs
         if self.fs.fsyncs > fsyncs:
             self.nontrivial = True
